@@ -78,10 +78,10 @@ def udpRunCompleted (sc : Script) (ph : Phase) (id : Nat) (s : State) : State :=
 
 /-- uv__udp_io (udp.c:139-151); no datagram ever arrives (POLLIN branch not modelled) -/
 def udpIo (sc : Script) (ph : Phase) (id : Nat) (ev : Nat) (s : State) : State :=
-  match getH s id with
+  match getF s id with
   | none => s
-  | some h =>
-    if ev &&& POLLOUT != 0 && !hClosing h then
+  | some f =>
+    if ev &&& POLLOUT != 0 && !hClosing f then
       udpRunCompleted sc ph id (udpSendmsg s id)
     else s
 
@@ -154,7 +154,7 @@ def asyncIoLoop (sc : Script) : Nat → State → State
         if !h.pending then asyncIoLoop sc fuel s
         else
           let s := modH s id (fun h => { h with pending := false })
-          let s := if h.f.internal then workDone sc s else runHandleCb sc .poll .async id 0 0 s
+          let s := if ((getF s id).map (·.internal)).getD false then workDone sc s else runHandleCb sc .poll .async id 0 0 s
           asyncIoLoop sc fuel s
 
 def asyncIo (sc : Script) (s : State) : State :=
@@ -188,6 +188,11 @@ def dispatchLoop (sc : Script) : Nat → State → Nat → Bool → State × Nat
       let s := { s with batch := rest }
       match o with
       | .other => dispatchLoop sc fuel s n sg
+      | .inotify =>
+        -- uv__inotify_read: the only events are IN_IGNORED after uv_fs_event_stop; no watcher, no callback
+        let e := filterEvents ev s.wInotify.pevents
+        if s.wInotify.pevents == 0 || e == 0 then dispatchLoop sc fuel s n sg
+        else dispatchLoop sc fuel s (n + 1) sg
       | .signal =>
         let e := filterEvents ev s.wSignal.pevents
         if s.wSignal.pevents == 0 || e == 0 then dispatchLoop sc fuel s n sg
@@ -282,12 +287,12 @@ def finishClose (sc : Script) (id : Nat) (s : State) : State :=
     let s := withKernel s id setClosed
     let s := if h.kind == .udp then udpFinishClose sc .closing id s else s
     let s := withKernel s id handleUnref
-    match getH s id with
+    match getF s id with
     | none => s
-    | some h' =>
+    | some f' =>
       -- uv__queue_remove(&handle->handle_queue); from here on the record does not exist
-      let s := { s with handles := s.handles.filter (·.id != id) }
-      runCb sc .closing .close (.c id) id (flagBits h'.f) 0 0 s
+      let s := { s with c := s.c.remove id, handles := s.handles.filter (·.id != id) }
+      runCb sc .closing .close (.c id) id (flagBits f') 0 0 s
 
 def runClosingLoop (sc : Script) : Nat → State → State
   | 0, s => s
